@@ -45,7 +45,7 @@ ASSUMPTIONS = [
     "exploration, not proof: seeded sampling of operation histories; a clean batch is evidence only for the histories explored",
     "reference model (mailbox move generator, attack test, material rule) is trusted; it is self-tested against published perft counts before every check",
     "no scheduler or clock dimension exists in owlchess: 'simulated time' is logical steps; the fault dimension is refusals, partial application, rebuild-from-record, failing fmt sinks, counter edges and build profile",
-    "histories are bounded: <= 1200 steps per run, <= 320 plies per chain, searcher depth <= 8, <= 300 nodes per searcher",
+    "histories are bounded: <= 2600 steps per run, <= 1100 plies per chain, searcher depth <= 8, <= 300 nodes per searcher",
     "a 64-bit hash collision between two different positions inside one game is treated as unreachable",
     "generator never breaks documented panic / unsafe preconditions (push with a stored outcome, unchecked make of a non-semilegal move, Custom(n) > 2^32, san::Data::Simple with a pawn)",
 ]
